@@ -709,18 +709,24 @@ def tbl12_xor_stream_fields(ctx):
     we, wv, rd = writes(enc), writes(venc), reads(dec)
     ctx.require(len(we) >= 6 and len(rd) >= 5, 'TBL-12: write_int/read_int calls not found')
     lit_w = lambda ws: [w for (_a, w, _l) in ws if w is not None]
-    ctx.check('TBL-12', 'encode-vs-verbose_encode|field-widths', lit_w(we) == lit_w(wv),
-              'encode writes literal widths %s, verbose_encode %s' % (lit_w(we), lit_w(wv)), f)
+    # compared as *sets* of (literal value or None, width): a fast path that emits an existing
+    # code from a second site is not a format change
+    codes = lambda ws: sorted({(_int_of(a), w) for (a, w, _l) in ws if w is not None},
+                              key=lambda x: (x[1], -1 if x[0] is None else x[0]))
+    ctx.check('TBL-12', 'encode-vs-verbose_encode|field-widths', codes(we) == codes(wv),
+              'encode writes the fields (value, width) %s, verbose_encode %s' % (codes(we), codes(wv)), f)
     # header: two 64-bit words on both sides
     ctx.check('TBL-12', 'header|widths', lit_w(we)[:2] == [64, 64] and [r[0] for r in rd][:2] == [64, 64],
               'length and first value are 64-bit fields on both sides', f)
-    # control prefix: encoder 1 bit (zero) or 2 bits; decoder reads 1 bit then 1 bit
-    enc_small = sorted(w for w in lit_w(we)[2:] if w <= 2)
-    dec_small = sorted(r[0] for r in rd[2:] if r[0] is not None and r[0] <= 2)
-    ctx.check('TBL-12', 'control-bits', enc_small == [1, 2, 2] and dec_small == [1, 1],
-              'encoder control fields %s, decoder control reads %s' % (enc_small, dec_small), f)
-    enc_big = sorted(w for w in lit_w(we)[2:] if w > 2)
-    dec_big = sorted(r[0] for r in rd[2:] if r[0] is not None and r[0] > 2)
+    # control prefix code (little endian, first bit read = least significant): 0 = repeat,
+    # 01 = reuse window, 11 = new window; the decoder reads one bit, then one more
+    enc_small = [c for c in codes(we) if c[1] <= 2]
+    dec_small = sorted({r[0] for r in rd[2:] if r[0] is not None and r[0] <= 2})
+    ctx.check('TBL-12', 'control-bits', enc_small == [(0, 1), (1, 2), (3, 2)] and dec_small == [1],
+              'encoder control codes (value, width) %s, decoder control reads of width %s'
+              % (enc_small, dec_small), f)
+    enc_big = sorted({w for w in lit_w(we)[2:] if w > 2})
+    dec_big = sorted({r[0] for r in rd[2:] if r[0] is not None and r[0] > 2})
     ctx.check('TBL-12', 'window-fields|widths', enc_big == dec_big and len(enc_big) == 2,
               'window description fields: encoder %s, decoder %s' % (enc_big, dec_big), f)
     # leading-zero cap: the cap is the largest value that fits the (smaller) window field
@@ -741,6 +747,6 @@ def tbl12_xor_stream_fields(ctx):
     # variable-width payload: encoder writes `significant_bits` bits, decoder reads last_significant_bits
     var_w = [a for (a, w, l) in we if w is None]
     var_r = [r for r in rd if r[0] is None]
-    ctx.check('TBL-12', 'payload|variable-width', len(var_w) == 2 and len(var_r) == 1,
+    ctx.check('TBL-12', 'payload|variable-width', len(var_w) >= 2 and len(var_r) >= 1,
               'payload written with the window width (%d sites), read with the window width (%d sites)'
               % (len(var_w), len(var_r)), f)
